@@ -17,6 +17,7 @@ import (
 	"github.com/ipfs/boxo/ipns"
 	ipns_pb "github.com/ipfs/boxo/ipns/pb"
 	"github.com/ipfs/boxo/path"
+	"github.com/ipfs/boxo/util"
 	"github.com/ipld/go-ipld-prime/codec/dagcbor"
 	"github.com/ipld/go-ipld-prime/datamodel"
 	basicnode "github.com/ipld/go-ipld-prime/node/basic"
@@ -161,6 +162,9 @@ func gen(r *vh.Rand, tier string, n int, emit func(vh.Case)) {
 				eol = now.Add(time.Hour).Truncate(time.Second).Add(500 * time.Millisecond) // trailing zeros trimmed
 			case 5:
 				eol = now.Add(-time.Duration(1+cr.Intn(100)) * time.Hour) // already expired: creation works, validation fails
+				if cr.Chance(1, 2) { // any year from 0001 on (zero-padded years, old leap-year rules)
+					eol = time.Date(1+cr.Intn(2025), time.Month(1+cr.Intn(12)), 1+cr.Intn(31), cr.Intn(24), cr.Intn(60), cr.Intn(60), cr.Intn(1_000_000_000), time.UTC)
+				}
 			default:
 				eol = now.Add(time.Duration(1+cr.Intn(100000)) * time.Minute).Add(time.Duration(cr.Intn(1_000_000_000)))
 			}
@@ -175,6 +179,45 @@ func gen(r *vh.Rand, tier string, n int, emit func(vh.Case)) {
 			f := eol.UTC().Format(time.RFC3339Nano)
 			c.Ops = append(c.Ops, fmt.Sprintf("new kt=%s value=%x seq=%d eol=%s now=%s ttl=%d v1=%s embed=%s needembed=%s big=%s meta=%s fmt=%x sk=%s",
 				k.typ, val, seq, nsOf(eol), nsOf(now), ttl, v1, embed, need, big, meta, f, k.skHex))
+		}
+		// RFC3339Nano parsing on its own: formatted instants and damaged / unusual spellings
+		for j, m := 0, cr.Intn(4); j < m; j++ {
+			t := time.Date(1+cr.Intn(9999), time.Month(1+cr.Intn(12)), 1+cr.Intn(31), cr.Intn(24), cr.Intn(60), cr.Intn(60), 0, time.UTC)
+			switch cr.Intn(4) {
+			case 0:
+				t = t.Add(time.Duration(cr.Intn(1_000_000_000)))
+			case 1:
+				t = t.Add(time.Duration(cr.Intn(1000)) * time.Millisecond)
+			case 2:
+				t = t.Add(time.Duration(cr.Intn(10)) * 100 * time.Millisecond)
+			}
+			if t.Year() > 9999 || t.Year() < 1 {
+				t = year9999
+			}
+			str := t.Format(time.RFC3339Nano)
+			switch cr.Intn(12) {
+			case 0: // one byte replaced
+				b := []byte(str)
+				b[cr.Intn(len(b))] = vh.Pick(cr, []byte("0123456789-:.TZ+ ,tz/"))
+				str = string(b)
+			case 1: // truncated
+				str = str[:cr.Intn(len(str))]
+			case 2: // zone offset instead of Z
+				str = str[:len(str)-1] + vh.Pick(cr, []string{"+00:00", "-00:00", "+02:00", "-07:30", "+14:00", "+23:59", "-23:59", "+24:00", "+02:60", "+0200", "+02"})
+			case 3: // impossible dates and times
+				b := []byte(str)
+				copy(b[5:10], vh.Pick(cr, []string{"02-30", "02-29", "04-31", "13-01", "00-10", "12-00", "12-32"}))
+				str = string(b)
+			case 4:
+				b := []byte(str)
+				copy(b[11:19], vh.Pick(cr, []string{"24:00:00", "23:60:00", "23:59:60", "00:00:00"}))
+				str = string(b)
+			case 5: // many fractional digits
+				str = str[:19] + "." + vh.Pick(cr, []string{"1234567891", "0000000001", "999999999999", "5", ""}) + "Z"
+			case 6:
+				str += vh.Pick(cr, []string{"Z", " ", "x"})
+			}
+			c.Ops = append(c.Ops, "ptime "+vh.Hex([]byte(str)))
 		}
 		emit(c)
 	}
@@ -284,6 +327,22 @@ func class(err error) string {
 func exec(c vh.Case, o *vh.Out) {
 	for _, line := range c.Ops {
 		f := strings.Fields(line)
+		if f[0] == "ptime" {
+			str := string(vh.UnHex(orDash(f[1])))
+			t, err := util.ParseRFC3339(str)
+			if err != nil {
+				o.Kind("ptime-err")
+				o.Emit("err")
+			} else {
+				o.Kind("ptime-ok")
+				// monitor: parse∘format = id on the way back
+				if back, err := util.ParseRFC3339(util.FormatRFC3339(t)); (t.Year() >= 1 && t.Year() <= 9999) && (err != nil || !back.Equal(t)) {
+					o.Fail("rfc3339-roundtrip", "format/parse of %v gives %v (%v)", t, back, err)
+				}
+				o.Emit("ok %s", nsOf(t))
+			}
+			continue
+		}
 		if f[0] != "new" {
 			o.Emit("bad-op")
 			continue
